@@ -144,7 +144,7 @@ Qed.
 Lemma handle_accepts_only_verified : forall cfg now peers from c ca ca' tg,
   handle cfg now peers from c ca = (ca', Some tg) -> verify cfg now c = true.
 Proof.
-  intros cfg now peers from c ca ca' tg H. unfold handle in H.
+  intros cfg now peers from c ca ca' tg H. unfold handle, handle_split in H.
   destruct (existsb (N.eqb (f_local cfg)) (c_seenby c)); [discriminate|].
   destruct (verify cfg now c); [reflexivity|discriminate].
 Qed.
@@ -153,7 +153,7 @@ Qed.
 Lemma handle_unverified_no_change : forall cfg now peers from c ca,
   verify cfg now c = false -> handle cfg now peers from c ca = (ca, None).
 Proof.
-  intros cfg now peers from c ca H. unfold handle. rewrite H.
+  intros cfg now peers from c ca H. unfold handle, handle_split. rewrite H.
   destruct (existsb (N.eqb (f_local cfg)) (c_seenby c)); reflexivity.
 Qed.
 
